@@ -110,7 +110,12 @@ func startLedDevice(cfg config.DeviceConfig, d *Desc, event string, index, port 
 }
 
 func startLedDeviceRO(cfg config.DeviceConfig, d *Desc, event string, index, port int, midiIn <-chan midi.Event) *ledDevice {
-	ld := &ledDevice{in: make(chan *input.InputEvent), out: make(chan midi.Event, 65536), done: make(chan string, 1), index: index}
+	return startLedDeviceCap(cfg, d, event, index, port, midiIn, 65536)
+}
+
+// startLedDeviceCap: outCap is the capacity of the device's MIDI output queue (8 in the application)
+func startLedDeviceCap(cfg config.DeviceConfig, d *Desc, event string, index, port int, midiIn <-chan midi.Event, outCap int) *ledDevice {
+	ld := &ledDevice{in: make(chan *input.InputEvent), out: make(chan midi.Event, outCap), done: make(chan string, 1), index: index}
 	ld.inDev = ledInputDevice(d, event)
 	ld.dev = device.NewDevice(ld.inDev, cfg, ld.out, midiIn, true, port, make(chan os.Signal, 16))
 	go func() {
